@@ -308,6 +308,30 @@ def dispersion_rule(chk, repo, clause):
                     detd = f'derivative coefficient k = {fmt(el)[:100]}; d/dx of the trace (highest power first) has {fmt(want)[:60]}'
         chk.ob(clause, 'N-formula', fd.key, 'arc-length integrand sqrt(1 + trace\'(x)^2) uses the derivative of the trace polynomial',
                okd, detd, fd.loc())
+    # the arc length is signed: distances on the short-wavelength side of the reference are negative, and the solver
+    # that matches it to the dispersion's distance relies on that sign
+    if repo.has_func('plane.DispersiveTilt._arc_len'):
+        fa = repo.func('plane.DispersiveTilt._arc_len')
+        _, ap, _ = analyse(repo, fa)
+        oka, deta = None, 'undecided: no quadrature call with the two bounds found'
+        for p in returns(ap):
+            qs = [e for e in p.events if e.kind == 'call' and str(e.data.get('callee', '')).startswith('ext:scipy.integrate.')]
+            for e in qs:
+                args = list(e.data.get('args', []))
+                kws = e.data.get('kwargs') or {}
+                lo = args[1] if len(args) > 1 else kws.get('a')
+                hi = args[2] if len(args) > 2 else kws.get('b')
+                if lo is None or hi is None:
+                    continue
+                if lo == S('a') and hi == S('b'):
+                    oka, deta = True, 'integrates from a to b as given'
+                elif any(is_app(x, ('min', 'max', 'minimum', 'maximum', 'abs', 'sort', 'sorted', 'amin', 'amax'))
+                         for v in (lo, hi) for x in nf.value_atoms(v)) or (lo == S('b') and hi == S('a')):
+                    oka = False
+                    deta = f'integrates from {fmt(lo)[:40]} to {fmt(hi)[:40]}: the arc length loses its sign, every distance on one side ' \
+                           'of the origin is reported as positive and the matching solver stalls at 0'
+        chk.ob(clause, 'N-formula', fa.key, 'the arc length keeps the sign of (b - a): the bounds reach the quadrature in the given order',
+               oka, deta, fa.loc())
     f, paths, _ = analyse(repo, 'plane.DispersiveTilt.shift')
     ok = False
     for p in returns(paths):
@@ -330,9 +354,17 @@ def run(chk, repo, tier):
     from .c06 import insert_rules as _insert_rules
     _c01.run_check(_Remap(chk, {'C01-a': 'C04-e', 'C01-d': 'C04-e'}), repo, tier)
     _insert_rules(chk, repo, 'C04-e')
+    # segments displaced by their own tilts meet again in the output: where their windows touch they are one group
+    chk.clause('C04-p', 'tilt-displaced segment fields are combined as the groups they form (reduce / group extents); each owns its transform', 3)
+    from .c06 import disjoint_rules as _disjoint_rules
+    _disjoint_rules(_Remap(chk, {'C06-f': 'C04-p'}), repo)
+    from .prop_flow import own_storage_rule as _own_storage_rule
+    _own_storage_rule(chk, repo, 'C04-p')
+    from .prop_flow import skip_rule as _skip_rule
+    _skip_rule(chk, repo, 'C04-p')
     chk.clause('C04-f', 'fit_tilt removes tip and tilt (not piston) and records exactly those coefficients', 4)
     chk.clause('C04-g', 'reader/writer slot agreement of Plane.tilt', 1)
-    chk.clause('C04-h', 'first-order dispersion is inverted exactly; displacement lies on the trace', 3)
+    chk.clause('C04-h', 'first-order dispersion is inverted exactly; displacement lies on the trace; signed arc length', 4)
     chk.clause('C04-i', 'tilt basis: [1, +r*px_row, -c*px_col]', 2)
     chk.clause('C04-j', 'least-squares fit against the masked piston/tip/tilt basis; per segment inside its mask; pieces summed', 7)
     chk.not_decided += ['sample-for-sample agreement of the four tilt representations', 'numerical arc length for order > 1']
